@@ -233,6 +233,7 @@ pub struct ConnState {
     pub outstanding_at_last_complete: bool,
     pub disconnect_cancelled: bool,
     pub t_connack_consumed: Option<u64>,
+    pub resume_overcommitted: bool,
 }
 
 impl ConnState {
@@ -288,6 +289,7 @@ impl ConnState {
             outstanding_at_last_complete: false,
             disconnect_cancelled: false,
             t_connack_consumed: None,
+            resume_overcommitted: false,
         }
     }
     pub fn io_calls(&self) -> u64 {
@@ -465,6 +467,7 @@ pub struct World {
     pub op_label: &'static str,
     pub sim_time_max: u64,
     pub qos0_cancelled: bool,
+    pub burn_done: bool,
     pub trace_hash: u64,
 }
 
@@ -522,6 +525,7 @@ impl World {
             op_label: "",
             sim_time_max: 0,
             qos0_cancelled: false,
+            burn_done: false,
             trace_hash: 0x9E3779B97F4A7C15,
         }
     }
@@ -591,6 +595,13 @@ impl World {
     fn apply_event(&mut self, ev: Event) {
         match ev {
             Event::Deliver { conn, bytes, metas } => {
+                // A conformant broker does not retransmit a QoS 2 PUBLISH once it has received the
+                // PUBREC (it sends PUBREL from then on): drop a delayed duplicate.
+                if let [(_, RxMeta::Publish { bmsg, dup: true })] = metas.as_slice() {
+                    if self.bmsgs[*bmsg].state != 0 {
+                        return;
+                    }
+                }
                 let c = &mut self.conns[conn];
                 if c.closed_by_client || c.closed_by_broker {
                     return;
